@@ -14,6 +14,7 @@ import mirq
 from mirq import show, access_path, AnchorMissing, const_of, walk
 from rulekit import Table
 from rules import common as C
+from rules import vocab as V
 
 TABLE = Table('C17')
 NOT_DECIDED = ('equality of the parsed values with the document (value-level); u64 sum overflow inside Iterator::sum and '
@@ -66,7 +67,7 @@ def r2(cx, rec):
             if rv['k'] == 'binop' and rv['op'] in ('Div', 'Rem'):
                 e = f.expr_rvalue(rv)
                 p = access_path(e[3]) or ''
-                if p.endswith('.piece_length'):
+                if p.endswith('.' + V.meta_piece_length(F)):
                     divs.append((f, bi, e))
     for f, bi, e in divs:
         rec.site(f, bi, '%s by the stored piece length' % e[1])
@@ -77,11 +78,11 @@ def r2(cx, rec):
     for f in F.user_fns():
         for bi, si, s in f.stores():
             pf = mirq.place_fields(s['lhs'])
-            if ('metainfo::Metainfo', 'piece_length') in pf:
+            if ('metainfo::Metainfo', V.meta_piece_length(F)) in pf:
                 writers.append((f, bi))
     rec.need(not writers, 'piece-length-mutated', 'metainfo', None, 'piece_length is assigned after construction in %s' % [w[0].path for w in writers])
     for bi, si, e in mirq.agg_sites(P, r'^metainfo::Metainfo$'):
-        src = dict(e[4]).get('piece_length')
+        src = dict(e[4]).get(V.meta_piece_length(F))
         x = src
         while x[0] in ('try', 'cast'):
             x = x[1]
@@ -116,13 +117,37 @@ def r2(cx, rec):
                  'a piece length of 0 is accepted by %s: every later piece_length()/piece_pos() divides by zero' % G.path)
 
 
-KEYS = {
-    'announce': ('announce', None),
-    'name': ('name', 'info'),
-    'piece_length': ('piece length', 'info'),
-    'pieces': ('pieces', 'info'),
-    'info_hash': (None, None),
-}
+def key_table(F):
+    """Metainfo field -> (key, parent key) it must be read from; fields are resolved by type, the two strings by the key
+    their initialiser reads (so that what the rest of the crate calls "announce" / "name" is what the parser filled from them)"""
+    return {
+        V.meta_announce(F): ('announce', None),
+        V.meta_name(F): ('name', 'info'),
+        V.meta_piece_length(F): ('piece length', 'info'),
+        V.meta_hashes(F): ('pieces', 'info'),
+    }
+
+
+def finder(F, keys):
+    """the Metainfo function that reads exactly the dictionary keys `keys` (outermost first)"""
+    fs = [f for f in F.user_fns() if f.self_ty == V.MI and f.kind == 'AssocFn' and keys_read(f) == keys]
+    return C.one(fs, 'reader of keys %s' % keys)
+
+
+def writer_fn(F):
+    """the torrent creator: the Metainfo function that inserts the literal keys of a .torrent into dictionaries"""
+    fs = []
+    for f in F.user_fns():
+        if f.self_ty != V.MI or f.kind != 'AssocFn':
+            continue
+        n = 0
+        for bb in mirq.real_calls(f):
+            e = f.expr_call(bb)
+            if e[4].get('name') == 'insert' and len(e[2]) == 3 and any(x[0] == 'bytes' for x in walk(e[2][1], inl=False)):
+                n += 1
+        if n >= 4:
+            fs.append(f)
+    return C.one(fs, 'torrent creator (writes the dictionary keys)')
 
 
 def keys_read(f):
@@ -143,9 +168,7 @@ def r3(cx, rec):
     P = meta_parse(F)
     for bi, si, e in mirq.agg_sites(P, r'^metainfo::Metainfo$'):
         fields = dict(e[4])
-        for fld, (key, parent) in KEYS.items():
-            if key is None:
-                continue
+        for fld, (key, parent) in key_table(F).items():
             src = fields.get(fld)
             x = mirq.init_of(src) if src else ('other', '')
             while x[0] in ('try', 'cast'):
@@ -158,18 +181,15 @@ def r3(cx, rec):
             rec.site(F.fn(x[1]), None, 'Metainfo.%s <- keys %s' % (fld, ks))
             rec.need(ks == want, 'field-key/' + fld, F.fn(x[1]), None, 'Metainfo.%s is read from keys %s, expected %s' % (fld, ks, want))
         # files: single-file uses find_length + name; multi uses find_files
-        fsrc = show(fields.get('files', ('other', '')))
-    for nm, want in (('find_length', ['info', 'length']), ('find_files', ['info', 'files'])):
-        g = [f for f in F.user_fns() if f.self_ty == 'metainfo::Metainfo' and f.name == nm]
-        if not g:
-            raise AnchorMissing(nm)
-        ks = keys_read(g[0])
-        rec.site(g[0], None, '%s reads %s' % (nm, ks))
-        rec.need(ks == want, 'field-key/' + nm, g[0], None, '%s reads keys %s, expected %s' % (nm, ks, want))
+        fsrc = show(fields.get(V.meta_files(F), ('other', '')))
+    for want in (['info', 'length'], ['info', 'files'], ['info', 'name']):
+        g = finder(F, want)
+        rec.site(g, None, '%s reads %s' % (g.name, want))
     # per-file keys in the file-list builder (adaptor chain or explicit loop; fields normalised over the list element)
     fl = [f for f in F.user_fns() if f.locals[0]['ty'] == 'std::vec::Vec<metainfo::File>' and f.argc >= 1 and 'BValue' in f.locals[f.argc]['ty']]
     L = C.one(fl, 'file-list builder (Vec<BValue> -> Vec<File>)')
-    C.check_list_records(F, rec, L, r'^metainfo::File$', {'length': ('length', 'Int'), 'path': ('path', 'ByteStr')}, 'file-fields')
+    C.check_list_records(F, rec, L, r'^metainfo::File$', {V.file_length(F): ('length', 'Int'), V.file_path(F): ('path', 'ByteStr')}, 'file-fields',
+                         roles={V.file_length(F): 'length', V.file_path(F): 'path'})
     # the list builder only pattern-matches: no value comparison silently drops entries
     for cf in [L] + [F.fns[c2] for c2 in F.children(L.path)]:
         extra = [show(cf.cond(sb)[0])[:60] for sb in cf.switches() if cf.cond(sb)[0][0] != 'discr']
@@ -179,13 +199,13 @@ def r3(cx, rec):
     # single-file layout: File{length: <find_length>, path: name}
     for bi, si, e in mirq.agg_sites(P, r'^metainfo::File$'):
         fs = dict(e[4])
-        rec.site(P, bi, 'single file: length <- %s, path <- %s' % (show(fs['length'])[-40:], show(fs['path'])[-40:]))
-        rec.need('find_length' in show(fs['length']) and 'find_name' in show(fs['path']), 'single-file', P, bi, 'single-file entry is not (length, name)')
+        fl_, fp_ = fs[V.file_length(F)], fs[V.file_path(F)]
+        rec.site(P, bi, 'single file: length <- %s, path <- %s' % (show(fl_)[-40:], show(fp_)[-40:]))
+        okl = any(x[0] == 'call' and x[1] == finder(F, ['info', 'length']).path for x in walk(fl_, inl=False))
+        okn = any(x[0] == 'call' and x[1] == finder(F, ['info', 'name']).path for x in walk(fp_, inl=False))
+        rec.need(okl and okn, 'single-file', P, bi, 'single-file entry is not (length, name)')
     # writer
-    W = [f for f in F.user_fns() if f.self_ty == 'metainfo::Metainfo' and f.name == 'create_file']
-    if not W:
-        raise AnchorMissing('create_file')
-    W = W[0]
+    W = writer_fn(F)
     wk = {}
     for bb in mirq.real_calls(W):
         e = W.expr_call(bb)
@@ -243,12 +263,12 @@ def r4(cx, rec):
             continue
         ln = fl = None
         for k, v in pf['atoms'].items():
-            m = re.match(r'std::option::Option::<T>::(is_some|is_none)\(metainfo::Metainfo::(find_length|find_files)', k)
+            m = re.match(r'std::option::Option::<T>::(is_some|is_none)\((metainfo::Metainfo::[A-Za-z0-9_]+)\(', k)
             if m and isinstance(v, bool):
                 present = v if m.group(1) == 'is_some' else (not v)
-                if m.group(2) == 'find_length' and ln is None:
+                if m.group(2) == finder(F, ['info', 'length']).path and ln is None:
                     ln = present
-                if m.group(2) == 'find_files' and fl is None:
+                if m.group(2) == finder(F, ['info', 'files']).path and fl is None:
                     fl = present
         outcome = 'ok' if p[-1] in agg else 'err'
         if ln is not None and fl is not None:
@@ -263,10 +283,12 @@ def r4(cx, rec):
 def r5(cx, rec):
     F = cx.F
     okset = {'iter', 'chunks', 'map', 'filter_map', 'flat_map', 'collect', 'into_iter', 'get', 'to_vec', 'len', 'try_into', 'try_from', 'from_utf8', 'unwrap', 'ok', 'or', 'into', 'file_list', 'clone'}
-    for nm in ('find_pieces', 'file_list'):
-        g = [f for f in F.user_fns() if f.self_ty == 'metainfo::Metainfo' and f.name == nm]
-        if not g:
-            raise AnchorMissing(nm)
+    # the two list builders, by what they return: the piece hashes (Result<Vec<[u8; 20]>>) and the file list (Vec<File>)
+    hb = [f for f in F.user_fns() if f.self_ty == V.MI and f.kind == 'AssocFn' and re.search(r'Vec<\[u8; (20|HASH_SIZE)\]>', f.locals[0]['ty'])
+          and any(f.expr_call(bb)[4].get('name') == 'chunks' for bb in mirq.real_calls(f))]
+    fb = [f for f in F.user_fns() if f.locals[0]['ty'] == 'std::vec::Vec<metainfo::File>' and f.argc >= 1 and 'BValue' in f.locals[f.argc]['ty']]
+    for nm, cands in (('find_pieces', hb), ('file_list', fb)):
+        g = [C.one(cands, 'builder of the %s' % ('piece hash list' if nm == 'find_pieces' else 'file list'))]
         chain = [g[0].expr_call(bb)[4].get('name') for bb in mirq.real_calls(g[0])]
         bad = [c for c in chain if c in ('rev', 'sort', 'sort_by', 'sort_unstable', 'skip', 'take', 'step_by', 'dedup', 'filter', 'rchunks', 'swap', 'reverse')]
         rec.site(g[0], None, '%s chain %s' % (nm, chain))
